@@ -89,6 +89,47 @@ MUTATIONS=(
 "move-HARMLESS-shift-literal|PASS|$CONSTS|s/pub const PIECE_ATTACKED_SHIFT: ShiftBits = PIECE_ATTACKED_MASK.trailing_zeros();/pub const PIECE_ATTACKED_SHIFT: ShiftBits = 3;/"
 "move-HARMLESS-mask-hex|PASS|$CONSTS|s/PIECE_ATTACKED_MASK: MaskBits = 0b111000;/PIECE_ATTACKED_MASK: MaskBits = 0x38;/"
 "move-HARMLESS-getter-parens|PASS|$BOARD|s/(self.bits \& PIECE_MOVED_MASK) >> PIECE_MOVED_SHIFT/((self.bits) \& PIECE_MOVED_MASK) >> PIECE_MOVED_SHIFT/"
+# ---- check detection (C05; table lookups opaque)
+"check-rook-ignores-queens|FAIL|$BOARD|s/(rook_attacks \& (passive.rooks() | passive.queens())) != 0/(rook_attacks \& passive.rooks()) != 0/"
+"check-bishop-uses-rook-table|FAIL|$BOARD|s/let bishop_attacks = BISHOP_MAGICS.get_attacks(king_square_shift, full_occupancy);/let bishop_attacks = ROOK_MAGICS.get_attacks(king_square_shift, full_occupancy);/"
+"check-pawn-colors-swapped|FAIL|$BOARD|s/let pawn_attacks = if color_bits == WHITE {/let pawn_attacks = if color_bits == BLACK {/"
+"check-valid-tests-side-to-move|FAIL|$BOARD|s/!self._is_in_check_by_bits(self.opposite_turn())/!self._is_in_check_by_bits(self.turn)/"
+"check-active-passive-swapped|FAIL|$BOARD|s/let (active, passive) = if color_bits == WHITE {/let (active, passive) = if color_bits != WHITE {/"
+"check-kings-reads-queens|FAIL|$BOARD|s/pub const fn kings(\&self) -> OccupancyBits { self.occupancy\[KING as usize\] }/pub const fn kings(\&self) -> OccupancyBits { self.occupancy[QUEEN as usize] }/"
+"check-full-occupancy-no-pawns|FAIL|$BOARD|s/self.bishops() | self.knights() | self.pawns()/self.bishops() | self.knights()/"
+"check-king-square-leading-zeros|FAIL|$BOARD|s/active.kings().trailing_zeros(), full_occupancy)/active.kings().leading_zeros(), full_occupancy)/"
+"check-UNSUPPORTED-opposite-xor|FAIL|board/src/lib.rs|s/    1 - color_bits/    color_bits ^ 1/"
+"check-HARMLESS-rename-local|PASS|$BOARD|s/rook_attacks/ra/g"
+"check-HARMLESS-final-if|PASS|$BOARD|s/        (king_attacks \& passive.kings()) != 0$/        if (king_attacks \& passive.kings()) != 0 { return true; } false/"
+# ---- incremental Zobrist update (C06; key tables opaque)
+"zxor-castle-king-queen-swapped|FAIL|$BOARD|0,/result ^= Zobrist::castle_hash(KING, self_color);/s//result ^= Zobrist::castle_hash(QUEEN, self_color);/"
+"zxor-ep-victim-16|FAIL|$BOARD|s/                target_square_shift + 8$/                target_square_shift + 16/"
+"zxor-attacked-own-color|FAIL|$BOARD|s/result ^= Zobrist::piece_square_hash(piece_attacked, target_square_shift, opponent_color);/result ^= Zobrist::piece_square_hash(piece_attacked, target_square_shift, self_color);/"
+"zxor-no-black-to-move|FAIL|$BOARD|s/        pawn_result ^= Zobrist::BLACK_TO_MOVE_HASH;//"
+"zxor-full-without-pawn-part|FAIL|$BOARD|s/(result ^ pawn_result, pawn_result)/(result, pawn_result)/"
+"zxor-castle-rook-target|FAIL|$BOARD|s/G1 => (H1, E1, F1, G1),/G1 => (H1, E1, D1, G1),/"
+"zxor-prev-ep-uses-next|FAIL|$BOARD|s/pawn_result ^= Zobrist::en_passant_square_hash(mv.get_previous_en_passant_square());/pawn_result ^= Zobrist::en_passant_square_hash(mv.get_next_en_passant_square());/"
+"zxor-HARMLESS-rename-local|PASS|$BOARD|s/piece_promoted/promo/g"
+"zxor-HARMLESS-swap-lets|PASS|$BOARD|/        let piece_moved = mv.get_piece_moved();/{h;d};/        let piece_promoted = mv.get_promotion_piece();/{G}"
+# ---- make / unmake (C02 / C03)
+"make-fullmove-always-plus-1|FAIL|$BOARD|s/self.fullmove_clock += self.turn;/self.fullmove_clock += 1;/"
+"make-halfmove-reset-to-1|FAIL|$BOARD|s/            self.halfmove_clock = 0;/            self.halfmove_clock = 1;/"
+"make-active-passive-swapped|FAIL|$BOARD|s/let (passive, active) = self.get_active_and_passive_mut();/let (active, passive) = self.get_active_and_passive_mut();/"
+"make-ep-victim-two-ranks|FAIL|$BOARD|/pub fn make(&mut self, mv: Move)/,/pub fn unmake(&mut self, mv: Move)/s/target_square_mask << 8/target_square_mask << 16/"
+"make-castle-c1-wrong-rook|FAIL|$BOARD|s/C1 => Self::make_castle(active, A1_MASK, source_square_mask, D1_MASK, target_square_mask),/C1 => Self::make_castle(active, H1_MASK, source_square_mask, D1_MASK, target_square_mask),/"
+"make-capture-sets-instead-of-clears|FAIL|$BOARD|s/\*passive.occupancy_ref(mv.get_piece_attacked()) \&= !target_square_mask;/*passive.occupancy_ref(mv.get_piece_attacked()) |= target_square_mask;/"
+"make-no-turn-flip|FAIL|$BOARD|/pub fn make(&mut self, mv: Move)/,/pub fn unmake(&mut self, mv: Move)/s/self.turn = self.opposite_turn();/self.turn = self.turn;/"
+"unmake-halfmove-zero|FAIL|$BOARD|s/self.halfmove_clock = mv.get_previous_halfmove();/self.halfmove_clock = 0;/"
+"unmake-ep-restores-next|FAIL|$BOARD|s/self.en_passant_square_shift = mv.get_previous_en_passant_square();/self.en_passant_square_shift = mv.get_next_en_passant_square();/"
+"unmake-fullmove-wrong-side|FAIL|$BOARD|s/self.fullmove_clock -= 1 - self.turn;/self.fullmove_clock -= self.turn;/"
+"unmake-captured-piece-not-restored|FAIL|$BOARD|s/            \*passive.occupancy_ref(piece_attacked) |= target_square_mask;\n            \*active.occupancy_ref(piece_moved) |= source_square_mask;/XX/;/pub fn unmake(&mut self, mv: Move)/,/fn make_castle/s/\*active.occupancy_ref(piece_moved) \&= !target_square_mask;/*active.occupancy_ref(piece_moved) |= target_square_mask;/"
+"make-castle-or-to-xor|FAIL|$BOARD|s/\*active.rooks_ref() |= rook_target_mask;/*active.rooks_ref() ^= rook_target_mask;/"
+"borrow-both-branches-same|FAIL|$BOARD|/fn get_active_and_passive_mut/,/^    }/s/(&mut self.white, &mut self.black)/(\&mut self.black, \&mut self.white)/"
+"place-pawns-ref-wrong-index|FAIL|$BOARD|s/fn pawns_ref(&mut self) -> &mut OccupancyBits { &mut self.occupancy\[PAWN as usize\] }/fn pawns_ref(\&mut self) -> \&mut OccupancyBits { \&mut self.occupancy[KNIGHT as usize] }/"
+"make-UNSUPPORTED-direct-index|FAIL|$BOARD|0,/\*active.pawns_ref() \&= !source_square_mask;/s//active.occupancy[1] \&= !source_square_mask;/"
+"make-UNSUPPORTED-self-access-while-borrowed|FAIL|$BOARD|/pub fn make(&mut self, mv: Move)/,/pub fn unmake(&mut self, mv: Move)/s/let source_square_shift = mv.get_source_square();/let source_square_shift = mv.get_source_square(); let w = \&self.white;/"
+"make-HARMLESS-rename-local|PASS|$BOARD|s/source_square_mask/src_mask/g"
+"make-HARMLESS-swap-stmts|PASS|$BOARD|/pub fn make(&mut self, mv: Move)/,/pub fn unmake(&mut self, mv: Move)/{/        self.en_passant_square_shift = mv.get_next_en_passant_square();/{h;d};/        self.turn = self.opposite_turn();/{G}}"
 )
 
 ok=0; bad=0
